@@ -136,8 +136,14 @@ theorem inv_step {s s' : State} (h : Inv s) {st : Step} (hs : step s st = some s
     · rename_i hc; cases hs
       exact ⟨h.fifo, h.one, h.order, h.noDrop, fun _ => Or.inr hc.2.1⟩
     · cases hs
-  | drainEmpty =>
-    simp only [step, drainEmpty] at hs
+  | drainDisconnected =>
+    simp only [step, drainDisconnected] at hs
+    split at hs
+    · rename_i hc; cases hs
+      exact ⟨h.fifo, h.one, h.order, h.noDrop, fun _ => Or.inr hc.2.2.1⟩
+    · cases hs
+  | graceExpired =>
+    simp only [step, graceExpired] at hs
     split at hs
     · rename_i hc; cases hs
       exact ⟨h.fifo, h.one, h.order, h.noDrop, fun _ => h.phase (by rw [hc.2.1]; decide)⟩
@@ -242,8 +248,13 @@ theorem countInv_step {s s' : State} (h : Inv s) (hc : CountInv s) {st : Step}
     split at hs
     · cases hs; exact hc
     · cases hs
-  | drainEmpty =>
-    simp only [step, drainEmpty] at hs
+  | drainDisconnected =>
+    simp only [step, drainDisconnected] at hs
+    split at hs
+    · cases hs; exact hc
+    · cases hs
+  | graceExpired =>
+    simp only [step, graceExpired] at hs
     split at hs
     · cases hs; exact hc
     · cases hs
@@ -261,7 +272,8 @@ theorem countInv_run {s s' : State} (h : Inv s) (hc : CountInv s) {tr : List Ste
     | some s1 => rw [hst] at hs; exact ih (inv_step h hst) (countInv_step h hc hst) hs
 
 
-/-! ### quiescent shutdown: nothing in flight, no new send gets a slot -/
+/-! ### quiescent shutdown: nothing in flight, no new send gets a slot
+(holds whether or not the writer's grace deadline expires) -/
 
 /-- nothing is in flight, the accepted list is `A`, and an exited consumer left nothing visible -/
 structure Quiet (A : List Msg) (s : State) : Prop where
@@ -305,12 +317,18 @@ theorem quiet_step {A : List Msg} {s s' : State} (h : Quiet A s) {st : Step}
   | seeDisconnected =>
     simp only [step, seeDisconnected] at hs
     split at hs
-    · rename_i hc; cases hs; exact ⟨⟨h.noInflight, h.acc, fun _ => hc.2.2⟩, fun h => h⟩
+    · rename_i hc; cases hs; exact ⟨⟨h.noInflight, h.acc, fun _ => hc.2.2.1⟩, fun h => h⟩
     · cases hs
-  | drainEmpty =>
-    simp only [step, drainEmpty] at hs
+  | drainDisconnected =>
+    simp only [step, drainDisconnected] at hs
     split at hs
-    · rename_i hc; cases hs; exact ⟨⟨h.noInflight, h.acc, fun _ => hc.2.2⟩, fun h => h⟩
+    · rename_i hc; cases hs; exact ⟨⟨h.noInflight, h.acc, fun _ => hc.2.2.2.1⟩, fun h => h⟩
+    · cases hs
+  | graceExpired =>
+    simp only [step, graceExpired] at hs
+    split at hs
+    · rename_i hc; cases hs
+      exact ⟨⟨h.noInflight, h.acc, fun _ => hc.2.2.resolve_right (fun hn => hn h.noInflight)⟩, fun h => h⟩
     · cases hs
   | setFlag =>
     simp only [step] at hs; cases hs
@@ -351,5 +369,112 @@ theorem run_append {s : State} {a b : List Step} :
     cases step s x with
     | none => simp
     | some s1 => simp [ih]
+
+/-! ### the repaired final drain: an exit that was not forced by an early `graceExpired`
+happened on a `Disconnected` channel, which then stays `Disconnected` -/
+
+/-- a consumer that has exited without an early grace expiry left a closed channel with nothing
+visible and nothing in flight -/
+def Settled (s : State) : Prop := s.phase = .exited → s.graceEarly = false → Disconnected s
+
+theorem settled_init (cap : Nat) (p : Overflow) (c : Consumer) : Settled (init cap p c) := by
+  intro h; cases h
+
+theorem settled_step {s s' : State} (h : Settled s) {st : Step} (hs : step s st = some s') :
+    Settled s' := by
+  cases st with
+  | sendBegin m =>
+    simp only [step, sendBegin] at hs
+    split at hs
+    · cases hs
+    · split at hs
+      · cases hs; exact h
+      · rename_i hncl
+        split at hs
+        · split at hs
+          · cases hs
+          · cases hs; exact h
+        · cases hs
+          intro hex hg
+          exact absurd (h hex hg).1 hncl
+  | sendEnd m =>
+    simp only [step, sendEnd] at hs
+    split at hs
+    · rename_i hmem
+      cases hs
+      intro hex hg
+      have := (h hex hg).2.2
+      rw [this] at hmem; cases hmem
+    · cases hs
+  | consume =>
+    simp only [step, consume] at hs
+    split at hs
+    · cases hs
+    · cases hs
+    · rename_i m rest hbuf hne
+      cases hs
+      intro hex; exact absurd hex (by simpa using hne)
+  | seeFlag =>
+    simp only [step, seeFlag] at hs
+    split at hs
+    · cases hs; intro hex; cases hex
+    · cases hs
+  | seeDisconnected =>
+    simp only [step, seeDisconnected] at hs
+    split at hs
+    · rename_i hc; cases hs; intro _ _; exact hc.2
+    · cases hs
+  | drainDisconnected =>
+    simp only [step, drainDisconnected] at hs
+    split at hs
+    · rename_i hc; cases hs; intro _ _; exact hc.2.2
+    · cases hs
+  | graceExpired =>
+    simp only [step, graceExpired] at hs
+    split at hs
+    · cases hs
+      intro _ hg
+      have hg' : (s.graceEarly || !decide (Disconnected s)) = false := hg
+      rw [Bool.or_eq_false_iff] at hg'
+      have hd : Disconnected s := by simpa using hg'.2
+      exact hd
+    · cases hs
+  | setFlag =>
+    simp only [step] at hs; cases hs; exact h
+  | close =>
+    simp only [step] at hs; cases hs
+    intro hex hg
+    have := h hex hg
+    exact ⟨rfl, this.2.1, this.2.2⟩
+
+theorem settled_run {s s' : State} (h : Settled s) {tr : List Step} (hs : run s tr = some s') :
+    Settled s' := by
+  induction tr generalizing s with
+  | nil => simp [run] at hs; subst hs; exact h
+  | cons st tr ih =>
+    simp only [run] at hs
+    cases hst : step s st with
+    | none => rw [hst] at hs; cases hs
+    | some s1 => rw [hst] at hs; exact ih (settled_step h hst) hs
+
+/-- only the `graceExpired` step can raise the `graceEarly` ghost -/
+theorem graceEarly_step {s s' : State} {st : Step} (hne : st ≠ .graceExpired)
+    (hs : step s st = some s') : s'.graceEarly = s.graceEarly := by
+  cases st <;> simp only [step, sendBegin, sendEnd, consume, seeFlag, seeDisconnected, drainDisconnected] at hs
+  case graceExpired => exact absurd rfl hne
+  all_goals (repeat' split at hs) <;> first | (cases hs; rfl) | cases hs
+
+theorem graceEarly_run {s s' : State} {tr : List Step} (hne : Step.graceExpired ∉ tr)
+    (hs : run s tr = some s') : s'.graceEarly = s.graceEarly := by
+  induction tr generalizing s with
+  | nil => simp [run] at hs; subst hs; rfl
+  | cons st tr ih =>
+    simp only [run] at hs
+    cases hst : step s st with
+    | none => rw [hst] at hs; cases hs
+    | some s1 =>
+      rw [hst] at hs
+      rw [ih (fun hm => hne (List.mem_cons_of_mem _ hm)) hs]
+      exact graceEarly_step (fun he => hne (he ▸ List.mem_cons_self)) hst
 
 end Fv.Log.Pipeline
